@@ -28,6 +28,19 @@ type COp struct {
 	Op string `json:"op"`
 	S  string `json:"s"`
 	K  string `json:"k"`
+	T  string `json:"t,omitempty"`  // explicit identity (random programs over random registration sets)
+	TK string `json:"tk,omitempty"`
+}
+
+func (o COp) ident() [2]string {
+	if o.T != "" {
+		k := o.TK
+		if k == "" {
+			k = "-"
+		}
+		return [2]string{o.T, k}
+	}
+	return concKeys[o.K]
 }
 
 type CScenario struct {
@@ -198,7 +211,7 @@ func runThreadOp(th string, o COp) {
 	newName := "n_" + th
 	switch o.Op {
 	case "get", "pget":
-		tk := concKeys[o.K]
+		tk := o.ident()
 		call["op"], call["t"], call["k"] = "resolve", tk[0], tk[1]
 		ret["op"] = "resolve"
 		if o.Op == "pget" {
@@ -230,7 +243,7 @@ func runThreadOp(th string, o COp) {
 			} else {
 				tg = target(o.S)
 			}
-			tk := concKeys[o.K]
+			tk := o.ident()
 			var v any
 			var err error
 			if tk[1] != "-" {
